@@ -66,6 +66,7 @@ class Sched(object):
         self.step_budget = step_budget
         self.tls = _th.local()
         self.deadlock = None
+        self.exhausted = False
         self.forced = {}            # scheduling point index -> thread pick
         self.points = 0             # scheduling points with a real choice
         self.rng = _random.Random(seed)
@@ -102,8 +103,32 @@ class Sched(object):
         if self.abort:
             raise Abort()
         self.steps += 1
+        c = self.controller
+        if self.exhausted:
+            if me is c:
+                raise StepBudget()
+            me.baton.acquire()          # parked until shutdown
+            raise Abort()
         if self.steps > self.step_budget:
-            raise StepBudget()
+            # end the scenario, not the process: a worker that runs past the
+            # budget (a busy loop that never waits for virtual time) is
+            # parked and the controller is woken with StepBudget raised from
+            # its pending wait
+            self.exhausted = True
+            if me is c:
+                raise StepBudget()
+            if c.state != RUNNABLE:
+                c.state = RUNNABLE
+                c.timed_out = True
+                self._unwait(c)
+            if me.state == RUNNABLE:
+                me.state = BLOCKED
+                me.wait_on = "budget"
+                me.deadline = None
+            c.baton.release()
+            if me.state != DONE:
+                me.baton.acquire()
+            raise Abort()
         while True:
             runnable = [t for t in self.threads if t.state == RUNNABLE]
             if runnable:
@@ -136,6 +161,8 @@ class Sched(object):
             me.baton.acquire()
             if self.abort:
                 raise Abort()
+            if self.exhausted and me is self.controller:
+                raise StepBudget()
 
     def _unwait(self, t):
         w = t.wait_on
